@@ -1171,6 +1171,22 @@ func (t *Type) solid_base() *Type {
 	}
 }
 
+// The type whose representation the instances of t have
+//
+// There are no sizes to compare as solid_base does in C.  Instances
+// of a type made in go (int, list, ...) have a representation of
+// their own; instances of a class made by python code have that of
+// its base; all exception types share the one of BaseException.
+func (t *Type) layout_base() *Type {
+	for t.Flags&TPFLAGS_HEAPTYPE != 0 && t.Base != nil {
+		t = t.Base
+	}
+	if t.Flags&TPFLAGS_BASE_EXC_SUBCLASS != 0 {
+		return BaseException
+	}
+	return t
+}
+
 // Calculate the best base amongst multiple base classes.
 // This is the first one that's on the path to the "solid base".
 func best_base(bases Tuple) (*Type, error) {
@@ -1195,7 +1211,7 @@ func best_base(bases Tuple) (*Type, error) {
 				return nil, err
 			}
 		}
-		candidate := base_i.solid_base()
+		candidate := base_i.layout_base()
 		if winner == nil {
 			winner = candidate
 			base = base_i
